@@ -101,7 +101,9 @@ def decimal(value: _decimal.Decimal) -> bytes:
         raise ValueError('Can not encode a non-finite decimal: {}'.format(
             value))
     decimals = max(0, -value.as_tuple().exponent)
-    return struct.pack('>Bi', decimals, int(value.scaleb(decimals)))
+    return struct.pack(
+        '>Bi', decimals,
+        int(value.scaleb(decimals, context=common.DecimalContext)))
 
 
 def double(value: float) -> bytes:
